@@ -146,6 +146,7 @@ theorem runOps_sim {σ : Type} (g : σ → Ev → σ) (R : σ → World → Prop
     (hff : ∀ s w me t x, R s w → R (g s (.force me t x false)) w)
     (hpair : ∀ s w me t x, R s w → R (g (g s (.force me t x true)) (.ecmd t x)) w)
     (herr : ∀ s w me, R s w → R (g s (.err me)) { w with thrown := true })
+    (hexec : ∀ s w me, R s w → R (g s (.exec me (w.alive me && w.interactive me))) w)
     (sc : Scripts) (f : Nat) (w : World) (me : Nat) (ops : List Op) (s : σ) (hs : R s w) :
     R ((runOps sc f w me ops).2.foldl g s) (runOps sc f w me ops).1 := by
   induction f generalizing w me ops s with
@@ -185,6 +186,7 @@ theorem runOps_sim {σ : Type} (g : σ → Ev → σ) (R : σ → World → Prop
         cases hsc : setCall w me false with
         | mk w' r => intro hg; exact hop _ _ (by simpa using hg)
       | err => exact hop _ _ (by simpa using herr s w me hs)
+      | exec => exact hop _ _ (by simpa using hexec s w me hs)
 
 
 /-! ### scripts keep the invariant -/
@@ -265,6 +267,7 @@ theorem G_runOps (sc : Scripts) (f : Nat) (w : World) (me : Nat) (ops : List Op)
   · intro s w me t x hh; exact hh
   · intro s w me hh
     exact ⟨G_congr _ _ _ hh.1 (fun _ => rfl) rfl rfl, fun u hu => hh.2 u hu⟩
+  · intro s w me hh; exact hh
   · exact ⟨h, hd⟩
 
 
